@@ -736,4 +736,81 @@ theorem degreesSpec_transpose_model (c : Csr Rat) (hc : Canonical c) :
   rw [← degreesSpec_congr (csrTranspose_dense c)]
   exact degreesSpec_model (csrTranspose c) (csrTranspose_inRange c) (canonical_transpose c hc)
 
+/-! ### the documented definitions of the format conversions and of tf-idf hold of the models' outputs -/
+
+theorem d2uSpec_model (tol : Rat) (ht : 0 ≤ tol) (a m : Mat) (w : Bool) (h : directed2undirected a w = .ok m) :
+    D2USpec tol a w m = true := by
+  obtain ⟨hsq, hr, hc, hget, _⟩ := directed2undirected_spec h
+  unfold D2USpec rowAll colAll
+  have hsc : 0 ≤ 2 * matMaxAbs a := mul_nonneg (by norm_num) (matMaxAbs_nonneg a)
+  simp only [Bool.and_eq_true, beq_iff_eq, List.all_eq_true, List.mem_range]
+  refine ⟨⟨⟨hsq, hr⟩, hc⟩, fun i hi j hj => ?_⟩
+  have hj' : j < a.nRow := by rw [hsq]; exact hj
+  rw [hget i j hi hj']
+  cases w with
+  | true => simp only [if_true]; exact close_self ht hsc _
+  | false => simp
+
+theorem b2dSpec_model (tol : Rat) (ht : 0 ≤ tol) (b : Mat) : B2DSpec tol b (bipartite2directed b) = true := by
+  unfold B2DSpec
+  have hsc : 0 ≤ matMaxAbs b := matMaxAbs_nonneg b
+  have hr : (bipartite2directed b).nRow = b.nRow + b.nCol := rfl
+  have hc : (bipartite2directed b).nCol = b.nRow + b.nCol := rfl
+  simp only [hr, hc, beq_self_eq_true, Bool.true_and, List.all_eq_true, List.mem_range]
+  intro i hi j hj
+  apply close_of_eq ht hsc
+  rw [bipartite2directed_spec b i j hi hj]
+  by_cases h : i < b.nRow ∧ b.nRow ≤ j
+  · simp [h.1, h.2]
+  · rw [if_neg h]
+    by_cases h1 : i < b.nRow
+    · have : ¬ b.nRow ≤ j := fun h2 => h ⟨h1, h2⟩
+      simp [this]
+    · simp [h1]
+
+theorem b2uSpec_model (tol : Rat) (ht : 0 ≤ tol) (b : Mat) : B2USpec tol b (bipartite2undirected b) = true := by
+  unfold B2USpec
+  have hsc : 0 ≤ matMaxAbs b := matMaxAbs_nonneg b
+  have hr : (bipartite2undirected b).nRow = b.nRow + b.nCol := rfl
+  have hc : (bipartite2undirected b).nCol = b.nRow + b.nCol := rfl
+  simp only [hr, hc, beq_self_eq_true, Bool.true_and, List.all_eq_true, List.mem_range]
+  intro i hi j hj
+  apply close_of_eq ht hsc
+  rw [bipartite2undirected_spec b i j hi hj]
+  by_cases h1 : i < b.nRow <;> by_cases h2 : j < b.nRow
+  · have : ¬ b.nRow ≤ j := by omega
+    have h3 : ¬ b.nRow ≤ i := by omega
+    simp [h1, h2, this, h3]
+  · have : b.nRow ≤ j := by omega
+    simp [h1, h2, this]
+  · have : b.nRow ≤ i := by omega
+    simp [h1, h2, this]
+  · have : b.nRow ≤ i := by omega
+    simp [h1, h2]
+
+theorem tfidfSpec_model (tol : Rat) (ht : 0 ≤ tol) (count : Mat) (logTable : List Rat) :
+    TfidfSpec tol count logTable (getTfidf count logTable) = true := by
+  unfold TfidfSpec rowAll colAll
+  have hr : (getTfidf count logTable).nRow = count.nRow := rfl
+  have hc : (getTfidf count logTable).nCol = count.nCol := rfl
+  simp only [hr, hc, beq_self_eq_true, Bool.true_and, List.all_eq_true, List.mem_range]
+  intro i hi j hj
+  rw [getTfidf_spec count logTable i j hi hj, docFreq_spec count j hj]
+  have hs : (sumTo count.nCol fun k => |count.get i k|) = sumTo count.nCol fun k => rabs (count.get i k) :=
+    sumTo_congr (fun k _ => (rabs_eq_abs _).symm)
+  rw [hs]
+  by_cases h0 : (sumTo count.nCol fun k => rabs (count.get i k)) = 0
+  · simp [h0, pinv]
+  · simp only [h0, if_false]
+    apply close_of_eq ht (mul_nonneg (sumTo_nonneg (fun k _ => rabs_nonneg _)) (rabs_nonneg _))
+    unfold pinv
+    rw [if_neg h0]
+    generalize (sumTo count.nCol fun k => rabs (count.get i k)) = s at h0 ⊢
+    generalize (if 0 < (List.filter (fun i => decide (0 < count.get i j)) (List.range count.nRow)).length then
+          logTable.getD ((List.filter (fun i => decide (0 < count.get i j)) (List.range count.nRow)).length - 1) 0
+        else 0) = t
+    have h1 : 1 / s * s = 1 := by rw [one_div, inv_mul_cancel₀ h0]
+    calc 1 / s * count.get i j * t * s = (1 / s * s) * (count.get i j * t) := by ring
+      _ = count.get i j * t := by rw [h1, one_mul]
+
 end SkNet.Convert
